@@ -120,6 +120,11 @@ type Cluster struct {
 	OnEvent func()
 	Now     func() time.Duration
 
+	// ClientWritePoints makes every client-side network write a scheduling point; GateResponses
+	// withholds response bytes until Release is called (partial delivery under explorer control).
+	ClientWritePoints bool
+	GateResponses     bool
+
 	nextMember   int
 	start        time.Time
 	shape        FetchShape
@@ -194,7 +199,7 @@ func (c *Cluster) event() {
 
 // Dial is a Dialer.DialFunc / Transport.Dial.
 func (c *Cluster) Dial(ctx context.Context, network, addr string) (net.Conn, error) {
-	vhook.Point(vhook.KUser, nil)
+	vhook.Point(vhook.KEnv, nil)
 	c.mu.Lock()
 	b := c.brokerByAddr(addr)
 	if b == nil || b.Down {
@@ -204,6 +209,10 @@ func (c *Cluster) Dial(ctx context.Context, network, addr string) (net.Conn, err
 	}
 	id := len(c.Conns)
 	cli, srv := vnet.Pipe(id, fmt.Sprintf("client:%d", 40000+id), b.Addr(), true)
+	cli.PointOnWrite = c.ClientWritePoints
+	if c.GateResponses {
+		srv.Gate()
+	}
 	sc := &srvConn{id: id, broker: b, srv: srv, cli: cli, authed: c.SASL == nil}
 	c.Conns = append(c.Conns, sc)
 	c.Dials = append(c.Dials, DialRec{At: c.Now(), Addr: addr, Conn: id})
@@ -232,7 +241,7 @@ func (c *Cluster) serve(sc *srvConn) {
 		if _, err := io.ReadFull(sc.srv, frame); err != nil {
 			return
 		}
-		vhook.Point(vhook.KUser, nil)
+		vhook.Point(vhook.KEnv, nil)
 		if raw {
 			c.rawAuthToken(sc, frame)
 			continue
@@ -454,6 +463,27 @@ func (c *Cluster) CutConn(id int) {
 	}
 	c.mu.Unlock()
 	c.event()
+}
+
+// Withheld lists connections with response bytes not yet released to the client.
+func (c *Cluster) Withheld() map[int]int {
+	c.mu.Lock()
+	defer c.mu.Unlock()
+	r := map[int]int{}
+	for _, sc := range c.Conns {
+		if n := sc.srv.Withheld(); n > 0 && !sc.cli.Closed() {
+			r[sc.id] = n
+		}
+	}
+	return r
+}
+
+// Release lets the client read n more response bytes on connection id (n<0: all).
+func (c *Cluster) Release(id, n int) {
+	c.mu.Lock()
+	sc := c.Conns[id]
+	c.mu.Unlock()
+	sc.srv.Release(n)
 }
 
 // OpenConns lists connections the client has not closed and the broker has not dropped.
